@@ -502,3 +502,20 @@ func Harness_main_exit_status() {
 		verifAssert("unreadable-input-is-nonzero-exit", code != 0)
 	}
 }
+
+// Harness_app_single_food_patterns: `register -f PATTERN` for well-formed and malformed regular
+// expressions (flag shapes reaching code that compiles user text): never a panic; a malformed
+// pattern is an error, a well-formed one succeeds.
+func Harness_app_single_food_patterns() {
+	pats := []string{"f0", "f.", "^f[01]$", "", "bread (white", "[", "*cup", "a{2,1}", "x\\", "f0)", "(?P<n", "\xff("}
+	valid := []bool{true, true, true, true, false, false, false, false, false, false, false, false}
+	i := verifChoose("pattern", len(pats))
+	verifLabel("pattern", pats[i])
+	_, err := hApp(-1, "--logfile="+verifFile("log", hAppLog), "--database="+verifFile("db", hAppDB), "reg", "-f", pats[i])
+	verifCover("ran")
+	if valid[i] {
+		verifAssert("valid-pattern-runs", err == nil)
+	} else {
+		verifAssert("malformed-pattern-is-error", err != nil)
+	}
+}
